@@ -5,6 +5,8 @@ the target node and the absence of a scratch set alone, so well-formedness (`WF`
 of histories.
 -/
 namespace Nima.EditFail
+-- name tokens are compared by spelling in this file (see `NameCmp` in Model/Edit.lean)
+attribute [local instance] NameCmp.spelled
 
 open Nima.Node Nima.EditM
 
